@@ -29,7 +29,6 @@ func VerifC12_RunActionWithTimeout() {
 	ignoresStop := verif.Bool("ignoresStopForAWhile")
 	finished := false
 	sawStop := false
-	verif.KnownDeadlockIf("KF-C12-stop-send-blocks-after-action-finished", &finished)
 	err := RunActionWithTimeout(func(stop chan bool) error {
 		t := time.After(d)
 		select {
